@@ -17,7 +17,7 @@ LEVEL = "exploration"
 
 BASES = collections.OrderedDict([
     ("meta-options", "name a\nversion 1.0\ntarget g (shots=10, l=[1, 2], s=\"a b\")\ntype t (k=-1.5)\n\nG | 0\n"),
-    ("scalars", "name a\nversion 1.0\n\nint n = 3\nfloat x = 2*n+0.5\ncomplex z = 1+2j\nbool b = True\nstr s = \"a # b\"\nG(n, x, z, b, s) | [0, 1]\n"),
+    ("scalars", "name a\nversion 1.0\n\nint n = 3\nfloat x = 2*n+0.5\ncomplex z = 1+2j\nbool b = True\nstr s = \"a # b \u00b5m caf\u00e9\"\nG(n, x, z, b, s) | [0, 1]\n"),
     ("arrays", "name a\nversion 1.0\n\nfloat array A[2, 2] =\n    1, 2\n    -3, 4\ncomplex array B =\n    1+2j, {p}\nG(A[1], B) | 0\nH(A) | [1, 0]\n"),
     ("statements", "name a\nversion 1.0\n\nG(1, -2.5, x=[1, 2], y={q}*2, w=\"s\") | [0, 1]\nMeasureX | 0\nXgate(q0*2, sqrt(2)) | (1, 2)\nVac | 2, 0\nK() | 3\n"),
     ("loops", "name a\nversion 1.0\n\nint n = 2\nfor int i in 0:3\n    H(i) | i\n    K(i*n) | (i, i+1)\nfor float y in [0.5, 1]\n    H(y) | 0\nMeasureX | 0\n"),
@@ -112,7 +112,7 @@ def single_edits(base):
         if role == "arrayrow":
             continue
         feat = "directly-after-for-header" if role == "loopbody-first" else ("between-loop-body-lines" if role == "loopbody" else "")
-        for c in COMMENT_TEXTS[::2]:
+        for c in COMMENT_TEXTS:
             edits.append(("comment-content:own-line", (i, c), feat, "\n".join(lines[:i] + [c] + lines[i:])))
     # (3) inserted lines before every line and at end of file, except inside array bodies
     for i in range(len(lines)):
@@ -126,7 +126,7 @@ def single_edits(base):
     return edits
 
 
-COMMENT_TEXTS = ["# ends with a backslash \\", "#", "# caf\u00e9 \u03c0 \U0001f642", "# G(9) | 9", "# name z", "## # #", "#\ttab\tseparated", "# 'q' \"unterminated", "# for int i in 0:2",
+COMMENT_TEXTS = ["# -*- coding: latin-1 -*-", "# vim: set fileencoding=ascii :", "# encoding=see README", "#!/usr/bin/env blackbird", "# ends with a backslash \\", "#", "# caf\u00e9 \u03c0 \U0001f642", "# G(9) | 9", "# name z", "## # #", "#\ttab\tseparated", "# 'q' \"unterminated", "# for int i in 0:2",
                  "# {a} {b}", "# \\n \\t \\\\", "# float array Z =", "#!shebang", "# include \"x.xbb\"", "# a\x0bb\x0cc\x85d\u2028e"]
 
 
